@@ -155,3 +155,11 @@ add('M21b', [('SRC/sp_preorder.c', "	if ( options->SymmetricMode == NO ) {", "	i
 add('M21c', [('SRC/get_perm_c.c', "	at_plus_a(n, Astore->nnz, Astore->colptr, Astore->rowind,\n		  &bnz, &b_colptr, &b_rowind);\n#if ( PRNTlevel>=1 )\n	printf(\"Use minimum degree ordering on A'+A.\\n\");",
               "	getata(m, n, Astore->nnz, Astore->colptr, Astore->rowind,\n		  &bnz, &b_colptr, &b_rowind);\n#if ( PRNTlevel>=1 )\n	printf(\"Use minimum degree ordering on A'+A.\\n\");")], ['C10'],
     note='MMD_AT_PLUS_A orders A\'A')
+
+# ---------------------------------------------------------------- C15 / C17
+add('M29', x4('SRC/?gsisx.c', "	    /* Restore A's original row indices. */\n	    for (i = 0; i < nnz; ++i) rowind[i] = iperm[rowind[i]];\n", "	    /* Restore A's original row indices. */\n	    if ( *info == 0 ) for (i = 0; i < nnz; ++i) rowind[i] = iperm[rowind[i]];\n"), ['C15'],
+    note='row indices of A not restored when pivots were replaced (info > 0)')
+add('M29b', x4('SRC/?gsisx.c', "		        C[i] = exp(C[i]);\n", ""), ['C15'], note='column duals of MC64 used as logarithms')
+add('M29c', x4('SRC/?gsisx.c', "	    for (i = 0; i < n; ++i) perm_tmp[i] = perm_r[perm[i]];", "	    for (i = 0; i < n; ++i) perm_tmp[i] = perm[perm_r[i]];"), ['C15'], note='fold composes in the wrong order')
+add('M33', x4('SRC/?gsisx.c', "	    if (info1 != 0) { /* MC64 fails, call ?gsequ() later */", "	    if (info1 < 0) { /* MC64 fails, call ?gsequ() later */"), ['C15', 'C17'], note='structural singularity from MC64 ignored')
+add('M29d', [('SRC/mark_relax.c', "	for (j = jcol; j <= kcol; j++)", "	for (j = jcol; j < kcol; j++)")], ['C15'], note='last column of each relaxed supernode not marked')
